@@ -101,7 +101,7 @@ fn judge_files(files: &[(String, Vec<u8>)], t: &mut Tally, with_layouts: bool) -
 fn scale_sets() -> Vec<(String, Vec<(String, Vec<u8>)>)> {
     let long_name: String = "長い名前".chars().cycle().take(150).collect(); // 300 Shift-JIS bytes
     let mut v = Vec::new();
-    for n in [255usize, 256, 257, 65_535, 65_536, 70_001] {
+    for n in util::ladder(70_001).into_iter().chain([70_001]) {
         v.push((format!("bodies of {} bytes", n), vec![("first".to_string(), body(0, n)), (long_name.clone(), body(1, 3)), ("last.bin".to_string(), body(2, n + 1))]));
     }
     v.push(("names of 254/255/256 bytes".to_string(), (0..3).map(|i| ("n".repeat(254 + i), body(i, 5 + i))).collect()));
@@ -126,7 +126,7 @@ fn explore(ctx: &Ctx) -> Outcome {
         .reduce(Tally::new, Tally::merge);
     let mut layers = vec![json!({"family": "ordered maps of 0..=3 files", "cases": cases.len(), "layouts_per_case": ref_pack::pack_layouts().len(), "completed": true})];
     // large archives: many files
-    for n in if ctx.tier == Tier::Thorough { vec![255usize, 256, 4096, 4097, 5000, 65535] } else { vec![255, 256, 4096, 4097, 5000] } {
+    for n in util::ladder(if ctx.tier == Tier::Thorough { 65535 } else { 8193 }).into_iter().chain(if ctx.tier == Tier::Thorough { vec![65535] } else { vec![] }) {
         let files: Vec<(String, Vec<u8>)> = (0..n).map(|i| (format!("f{:05}", i), body(i % 4, i % 3))).collect();
         total.cases += 1;
         total.nontrivial += 1;
